@@ -412,7 +412,7 @@ func (ss *SpecSet) parseFile(path string, dep bool) error {
 					}
 					ann.Ghost = strings.TrimSpace(body[:eq])
 					body = strings.TrimSpace(body[eq+1:])
-				} else if f[1] != "assert" && f[1] != "ensure" && f[1] != "assume" {
+				} else if f[1] != "assert" && f[1] != "ensure" && f[1] != "assume" && f[1] != "witness" {
 					return fmt.Errorf("%s:%d: at <site> assert|set ...", path, ln+1)
 				}
 				c, err := mkClause("site-"+f[1], body)
